@@ -26,6 +26,22 @@ type T struct {
 	P *int
 }
 
+// Sharded and NamedSlice are user interfaces that *exec.Result implements although they
+// are not bigslice.Slice itself: a Result passed through such a parameter must still
+// reach the worker as the worker-local Result.
+type Sharded interface{ NumShard() int }
+type NamedSlice interface{ bigslice.Slice }
+
+func asSlice(x interface{}) bigslice.Slice {
+	if x == nil {
+		return nil
+	}
+	if s, ok := x.(bigslice.Slice); ok {
+		return s
+	}
+	return nil
+}
+
 // Shape is a user-defined interface used as a Func parameter type.
 type Shape interface{ Area() int }
 
@@ -246,6 +262,9 @@ var registry = []*bigslice.FuncValue{
 		return buildFrom(descAll(a, t, b, m, u, n), 0)
 	}),
 	/* 24 */ bigslice.Func(func(a, b, c []int) bigslice.Slice { return buildFrom(descAll(a, b, c), 0) }),
+	// 25-26: a Result passed through an interface type that is not bigslice.Slice itself
+	/* 25 */ bigslice.Func(func(x Sharded) bigslice.Slice { return buildFrom(descAll(x), 0, asSlice(x)) }),
+	/* 26 */ bigslice.Func(func(n int, x NamedSlice) bigslice.Slice { return buildFrom(descAll(n, x), n, asSlice(x)) }),
 }
 
 func sum(xs ...[]int) int {
@@ -331,6 +350,8 @@ var paramDomains = map[int][][]val{
 	22: {domPT, domPT},
 	23: {domInts[3:], domT[:2], domInts[3:], domMap[3:], domT[:2], domMap[3:]},
 	24: {domInts[2:], domInts[2:], domInts[2:]},
+	25: {domSlice},
+	26: {domShard, domSlice},
 }
 
 // named domains, so that a value can be named across processes as "<domain>/<label>"
